@@ -51,6 +51,19 @@ NESTINGS = [("(", ")", "num"), ("[", "]", "num"), ("{ 'p ", " }", "num"), ("<", 
             ("[f ", " /a/b c]", "num"), ("(", " :: /a/b on get -> <>)", "num"), ("{ 'p (", " | { 'a num, 'b str }) }", "num")]
 
 
+def block_comment_texts(maxlen=4):
+    """every block comment body over {*, /, a, space, newline} up to a length, closed and followed by a token, and left open"""
+    import itertools
+    out = []
+    for k in range(0, maxlen + 1):
+        for w in itertools.product(["*", "/", "a", " ", "\n"], repeat=k):
+            body = "".join(w)
+            out.append("/*" + body + "*/ let a = num;")
+            if k >= 2 and k % 2 == 0:
+                out.append("let a /*" + body + "*/ = num; /*" + body)
+    return out
+
+
 def mutate_text(rng, src):
     """token-ish / byte-level mutations of a valid program"""
     ops = rng.randint(1, 3)
